@@ -470,6 +470,34 @@ def known_witnesses2(ctx):
                       witness_id="mod-common-symbol-negative-factor")
 
 
+def literal_history(ctx, rng):
+    """numeric literals mean themselves whatever has been parsed before in the process: a value is first met as a FLOAT literal
+    (`70123.0*x`), then as an integer literal in integer-only arithmetic that needs more than 15 digits — and the other way round"""
+    for i in range(ctx.n(40, 400)):
+        v = rng.randint(10**4, 10**6) * 2 + 1
+        first_float = i % 2 == 0
+        vf = E.num(v)
+        t_float = E.bin_("+", E.bin_("*", vf, E.sym("x")), E.num(1))
+        s_float = f"{v}.0*x + 1"
+        t_mod = E.bin_("%", E.bin_("+", E.bin_("**", vf, E.num(4)), E.num(1)), vf)
+        s_mod = f"({v}**4 + 1) % {v}"
+        t_can = E.bin_("-", E.bin_("+", E.bin_("**", vf, E.num(4)), E.num(1)), E.bin_("**", vf, E.num(4)))
+        s_can = f"{v}**4 + 1 - {v}**4"
+        t_div = E.bin_("//", E.bin_("+", E.bin_("*", vf, E.bin_("**", E.num(10), E.num(17))), E.num(7)), vf)
+        s_div = f"({v}*10**17 + 7) // {v}"
+        seq = [(s_float, t_float)] + [(s_mod, t_mod), (s_can, t_can), (s_div, t_div)]
+        if not first_float:
+            seq = seq[1:] + seq[:1]
+        for s_, t_ in seq:
+            before = len(ctx.violations)
+            check_string(ctx, s_, t_, rng, "numeric literal after a history of other literals of equal value "
+                         f"({'float literal first' if first_float else 'integer literals first'}: {[x for x, _ in seq]})")
+            if len(ctx.violations) > before:
+                return
+        ctx.stats["literal_histories"] += 1
+        ctx.nontrivial(("literal-history", v))
+
+
 def run(ctx, widen=False):
     rng = ctx.rng
     known_witnesses(ctx)
@@ -485,6 +513,8 @@ def run(ctx, widen=False):
         builtins(ctx, rng)
     if not ctx.violations:
         random_strings(ctx, rng)
+    if not ctx.violations:
+        literal_history(ctx, rng)
     model_correspondence(ctx, rng)
 
 
